@@ -1,5 +1,8 @@
 use crate::{
-    annotations::{extract::FromStrHex, Annotations},
+    annotations::{
+        extract::{check_prover_messages, FromStrHex},
+        Annotations,
+    },
     builtins::Builtin,
     layout::Layout,
     stark_proof::{self, *},
@@ -17,6 +20,8 @@ pub struct StarkProof {
     proof_parameters: ProofParameters,
     annotations: Vec<String>,
     public_input: PublicInput,
+    #[serde(default)]
+    proof_hex: Option<String>,
 }
 
 #[derive(Deserialize, Debug, Clone, PartialEq)]
@@ -414,10 +419,17 @@ impl TryFrom<StarkProof> for stark_proof::StarkProof {
     fn try_from(value: StarkProof) -> anyhow::Result<Self> {
         let config = value.stark_config()?;
 
-        let annotations = Annotations::new(
-            &value.annotations.iter().map(String::as_str).collect::<Vec<_>>(),
-            value.proof_parameters.stark.fri.fri_step_list.len(),
-        )?;
+        let annotation_lines = value.annotations.iter().map(String::as_str).collect::<Vec<_>>();
+        let annotations =
+            Annotations::new(&annotation_lines, value.proof_parameters.stark.fri.fri_step_list.len())?;
+        // The prover messages cover the whole proof: a file whose last messages are missing is truncated.
+        if let Some(proof_hex) = &value.proof_hex {
+            let n_proof_bytes = proof_hex.trim_start_matches("0x").len() / 2;
+            anyhow::ensure!(
+                check_prover_messages(&annotation_lines)? == n_proof_bytes,
+                "annotations do not cover the {n_proof_bytes} bytes of proof_hex"
+            );
+        }
         anyhow::ensure!(
             annotations.proof_of_work_nonce.bits() <= 64,
             "proof of work nonce does not fit in 64 bits"
